@@ -384,6 +384,18 @@ impl<'l> CelCompiler<'l> {
                         ),
                     ));
                 } else if self.bindings.get_type(&i).is_some() {
+                    let type_pattern = match MatchTypePattern::try_from_type_str(&i) {
+                        Some(pattern) => pattern,
+                        None => {
+                            return Err(SyntaxError::from_location(t.loc.start())
+                                .with_message(format!(
+                                    "Type {} cannot be used as a match pattern",
+                                    i
+                                ))
+                                .into())
+                        }
+                    };
+
                     self.tokenizer.next()?;
                     return Ok((
                         CompiledProg::with_bytecode(
@@ -398,7 +410,7 @@ impl<'l> CelCompiler<'l> {
                         ),
                         AstNode::new(
                             MatchPattern::Type(AstNode::new(
-                                MatchTypePattern::from_type_str(&i),
+                                type_pattern,
                                 SourceRange::new(start, self.tokenizer.location()),
                             )),
                             SourceRange::new(start, self.tokenizer.location()),
@@ -872,10 +884,9 @@ impl<'l> CelCompiler<'l> {
                 // already scanned past the operand's first token by now, its location
                 // would put the empty tail inside the operand.
                 let ast = match ast.node() {
-                    NotList::EmptyList => AstNode::new(
-                        NotList::EmptyList,
-                        SourceRange::new(loc.end(), loc.end()),
-                    ),
+                    NotList::EmptyList => {
+                        AstNode::new(NotList::EmptyList, SourceRange::new(loc.end(), loc.end()))
+                    }
                     _ => ast,
                 };
 
@@ -917,10 +928,9 @@ impl<'l> CelCompiler<'l> {
 
                 // See parse_not_list: the empty tail sits right behind this operator.
                 let ast = match ast.node() {
-                    NegList::EmptyList => AstNode::new(
-                        NegList::EmptyList,
-                        SourceRange::new(loc.end(), loc.end()),
-                    ),
+                    NegList::EmptyList => {
+                        AstNode::new(NegList::EmptyList, SourceRange::new(loc.end(), loc.end()))
+                    }
                     _ => ast,
                 };
 
